@@ -12,6 +12,7 @@ import EaselModel.Stats.MinTrace
 import EaselModel.Stats.MinDescent
 import EaselModel.Stats.WeibullReal
 import EaselModel.Stats.TevdReal
+import EaselModel.Stats.ExpBinnedReal
 import EaselModel.Stats.HistExpectReal
 import EaselModel.Stats.HistPlotRat
 /-! # C11 — property theorems (statements + glue only; lemmas live in `EaselModel/Stats/*`)
@@ -596,6 +597,25 @@ theorem truncated_gumbel_gradient_is_derivative (xs : Array ℝ) (phi mu w : ℝ
 /-- non-vacuity: `φ = μ = 0`, `λ = 1` lies in that regime -/
 example : ¬ (50 : ℝ) < Real.exp 0 * ((0 : ℝ) - 0) ∧ ¬ |-(Real.exp (-(Real.exp 0 * ((0 : ℝ) - 0))))| < (5e-9 : ℝ) ∧
     ¬ |Real.exp (-(Real.exp (-(Real.exp 0 * ((0 : ℝ) - 0)))))| < (5e-9 : ℝ) := tevd_regime_example
+
+/-- **`esl_exp_FitCompleteBinned` returns THE maximiser of the binned exponential likelihood** (a binned-histogram variant of the property, at
+    full strength over ℝ). Complete or virtually censored histogram whose evaluated bins `cmin..imax` lie inside `obs[]`, `w > 0`: eslOK, the
+    documented `μ` (`xmin`; `LBound(imin)` for rounded data; `phi` for a tail), `λ = (1/w)(log(S + N·w) - log S)` with `S = Σ nᵢ(aᵢ-μ)`, `N = Σ nᵢ`,
+    and for EVERY `λ' > 0` the binned log-likelihood `Σ nᵢ log(e^{-λ'(aᵢ-μ)} - e^{-λ'(aᵢ+w-μ)}) = -λ'S + N log(1 - e^{-λ'w})` is not larger than at `λ`. -/
+theorem exp_binned_fit_is_maximiser (h : Hist ℝ) (hds : h.datasetIs ≠ .trueCensored) (hc : 0 ≤ h.cmin) (hcn : h.cmin ≤ h.obs.size)
+    (hi : h.imax < h.obs.size) (hw : 0 < h.w) :
+    let mu := match h.datasetIs with | .complete => if h.isRounded then h.lbound h.imin else h.xmin | _ => h.phi
+    let k := (h.imax - h.cmin + 1).toNat
+    let S := wsum h.obs (fun j => h.lbound j - mu) k h.cmin
+    let N := wsum h.obs (fun _ => 1) k h.cmin
+    expFitCompleteBinned h = .res .ok #[mu, 1 / h.w * (Real.log (S + N * h.w) - Real.log S)] ∧
+    (0 < S → 0 < N → ∀ lam' : ℝ, 0 < lam' → llExpBinned S N h.w lam' ≤ llExpBinned S N h.w (1 / h.w * (Real.log (S + N * h.w) - Real.log S))) :=
+  expFitCompleteBinned_max h hds hc hcn hi hw
+
+/-- the closed form IS the per-bin likelihood: `log(e^{-λ(a-μ)} - e^{-λ(a+δ-μ)}) = -λ(a-μ) + log(1 - e^{-λδ})` (`λ, δ > 0`) -/
+theorem exp_binned_loglik_closed_form (a mu delta lam : ℝ) (hl : 0 < lam) (hd : 0 < delta) :
+    Real.log (Real.exp (-lam * (a - mu)) - Real.exp (-lam * (a + delta - mu))) = -lam * (a - mu) + Real.log (1 - Real.exp (-lam * delta)) :=
+  log_bin_prob a mu delta lam hl hd
 
 /-- over ℝ, `esl_vec_DMin` is the smallest observation (non-empty data) -/
 theorem cg_fit_location_is_minimum (xs : Array ℝ) (hn : 0 < xs.size) : vmin xs ∈ xs.toList ∧ ∀ x ∈ xs.toList, vmin xs ≤ x := by
